@@ -87,7 +87,12 @@ func expectRequest(store *refredis.Store, r world.Request, model [][]byte) Expec
 			return Expect{Kind: expExact, Val: resp2.S("PONG")}
 		}
 		return Expect{Kind: expSkip}
-	case "quit", "select":
+	case "select":
+		if len(args) == 2 && string(args[1]) != "0" {
+			return Expect{Kind: expSkip} // only database 0 exists behind the proxy: any single reply will do
+		}
+		return Expect{Kind: expExact, Val: resp2.S("OK")}
+	case "quit":
 		return Expect{Kind: expExact, Val: resp2.S("OK")}
 	case "info", "hotkey":
 		return Expect{Kind: expBulk}
